@@ -210,13 +210,13 @@ func runCase(c c18case, rep func(clause string, f map[string]string, detail stri
 	}()
 	pfxs := bgpx.Pfxs(!s.V6, c.N, c.PfxMode, c.PfxSeed)
 	u, cap := bgpx.NewSender(s)
-	if c.Flush == "ticker" {
-		u.Start(5 * time.Millisecond)
-	}
 	for _, p := range pfxs {
 		u.AddPath(p.Bio(), c.Path.Bio())
 	}
 	if c.Flush == "ticker" {
+		// started after queueing so that the first tick sees the whole queue (which prefixes share a round
+		// would otherwise depend on the scheduler and the case would not replay)
+		u.Start(5 * time.Millisecond)
 		deadline := time.Now().Add(30 * time.Second)
 		for u.VerifPending() != 0 {
 			if time.Now().After(deadline) {
@@ -391,7 +391,7 @@ func main() {
 			runCase(c, mk(c))
 			return
 		}
-		n := r.N(3000, 150000)
+		n := r.N(2400, 60000)
 		perBlock := map[string]int{}
 		perSess := map[string]int{}
 		var mu sync.Mutex
